@@ -78,7 +78,46 @@ def match(pat: ast.AST, node: ast.AST, b: dict[str, str]) -> bool:
                 b.update(trial)
                 return True
         return False
+    if isinstance(pat, ast.IfExp) and isinstance(node, ast.IfExp):
+        # `a if c else b` is `b if not c else a`
+        trial = dict(b)
+        if _match_fields(pat, node, trial):
+            b.update(trial)
+            return True
+        trial = dict(b)
+        if _is_negation(pat.test, node.test, trial) and match(pat.body, node.orelse, trial) and match(pat.orelse, node.body, trial):
+            b.update(trial)
+            return True
+        return False
     return _match_fields(pat, node, b)
+
+
+_NEGATED = {ast.Eq: ast.NotEq, ast.NotEq: ast.Eq, ast.Lt: ast.GtE, ast.GtE: ast.Lt, ast.Gt: ast.LtE, ast.LtE: ast.Gt,
+            ast.Is: ast.IsNot, ast.IsNot: ast.Is, ast.In: ast.NotIn, ast.NotIn: ast.In}
+
+
+def _is_zero(e: ast.AST) -> bool:
+    return isinstance(e, ast.Constant) and e.value == 0 and not isinstance(e.value, bool)
+
+
+def _is_negation(pat: ast.AST, node: ast.AST, b: dict[str, str]) -> bool:
+    """Whether `node` is the negation of the test `pat` (pattern variables bound along the way)."""
+    if isinstance(node, ast.UnaryOp) and isinstance(node.op, ast.Not) and match(pat, node.operand, b):
+        return True
+    if isinstance(pat, ast.UnaryOp) and isinstance(pat.op, ast.Not) and match(pat.operand, node, b):
+        return True
+    if isinstance(pat, ast.Compare) and len(pat.ops) == 1:
+        if isinstance(node, ast.Compare) and len(node.ops) == 1 and type(node.ops[0]) is _NEGATED.get(type(pat.ops[0])):
+            trial = dict(b)
+            if match(pat.left, node.left, trial) and match(pat.comparators[0], node.comparators[0], trial):
+                b.update(trial)
+                return True
+        # `e == 0` negated is the truthiness of e; `e != 0` negated is `not e` (handled above through match of Not)
+        if isinstance(pat.ops[0], ast.Eq) and _is_zero(pat.comparators[0]) and match(pat.left, node, b):
+            return True
+    if isinstance(node, ast.Compare) and len(node.ops) == 1 and isinstance(node.ops[0], ast.Eq) and _is_zero(node.comparators[0]) and match(pat, node.left, b):
+        return True
+    return False
 
 
 _FLIP = {ast.Lt: ast.Gt, ast.Gt: ast.Lt, ast.LtE: ast.GtE, ast.GtE: ast.LtE, ast.Eq: ast.Eq, ast.NotEq: ast.NotEq}
